@@ -345,7 +345,7 @@ def run(ctx):
         cases = [ctx.replay["case"]] if "case" in ctx.replay and "ops" in ctx.replay["case"] else []
     else:
         cases = corpus()
-        n = 10 if ctx.quick() else 60
+        n = 8 if ctx.quick() else 60
         cases += [gen_history(ctx.rng, ctx.quick(), with_legacy=(i % 3 == 2)) for i in range(n)]
     for i, c in enumerate(cases):
         c["id"] = i
